@@ -358,11 +358,16 @@ func frBuildAttr(a frAttr, o frOpts) (PathAttributeInterface, error) {
 		if err != nil {
 			return nil, err
 		}
-		nh := netip.MustParseAddr("10.0.0.1")
-		if f.Afi() == AFI_IP6 {
-			nh = netip.MustParseAddr("2001:db8::1")
+		// a.N = next-hop kind: 0 one address of the family's AFI, 1 one IPv6 address (RFC 8950 for the
+		// IPv4 families), 2 IPv6 global + link-local
+		v6, ll := netip.MustParseAddr("2001:db8::1"), netip.MustParseAddr("fe80::1")
+		switch {
+		case a.N == 2:
+			return NewPathAttributeMpReachNLRI(f, nl, v6, ll)
+		case a.N == 1 || f.Afi() == AFI_IP6:
+			return NewPathAttributeMpReachNLRI(f, nl, v6)
 		}
-		return NewPathAttributeMpReachNLRI(f, nl, nh)
+		return NewPathAttributeMpReachNLRI(f, nl, netip.MustParseAddr("10.0.0.1"))
 	case "mpunreach":
 		f, err := GetFamily(a.Fam)
 		if err != nil {
@@ -575,6 +580,12 @@ func frProjAttr(p PathAttributeInterface) frAttr {
 		}
 	case *PathAttributeMpReachNLRI:
 		a.T, a.Fam, a.Nl = "mpreach", NewFamily(v.AFI, v.SAFI).String(), frProjNlris(v.Value)
+		switch {
+		case v.LinkLocalNexthop.IsValid():
+			a.N = 2
+		case v.AFI == AFI_IP && v.Nexthop.Is6():
+			a.N = 1
+		}
 	case *PathAttributeMpUnreachNLRI:
 		a.T, a.Fam, a.Nl = "mpunreach", NewFamily(v.AFI, v.SAFI).String(), frProjNlris(v.Value)
 	}
